@@ -88,8 +88,9 @@ def check(case):
             f3 = compile_to_dict_function(e, V)
         except Exception as ex:
             return Result.violation(f"compile-raises:{exc_label(ex)}", f"{show(recipe)}: {ex!r}", classes)
+        wide = case["stratum"].startswith("wide")   # CompiledExpression compiles a gradient too: O(n^2) for 200 variables, C03's business
         try:
-            ce = CompiledExpression(e, V)
+            ce = None if wide else CompiledExpression(e, V)
         except Exception as ex:
             return Result.violation(f"CompiledExpression-raises:{exc_label(ex)}", f"{show(recipe)}: {ex!r}", classes)
 
@@ -114,7 +115,8 @@ def check(case):
                     obs["compile-cached"] = f1b(x)
                     obs["evaluate"] = e.evaluate(d)
                     obs["dict-fn"] = f3({n: pt[n] for n in order})
-                    obs["CompiledExpression.value"] = ce.value(x)
+                    if ce is not None:
+                        obs["CompiledExpression.value"] = ce.value(x)
                 except Exception as ex:
                     return Result.violation(f"call-raises:{exc_label(ex)}",
                                             f"{show(recipe)} at {pt}: {ex!r}", classes)
@@ -160,7 +162,7 @@ def check(case):
             try:
                 V2 = [objs[n] for n in order2]
                 f2 = compile_expression(e, V2)
-                ce2 = CompiledExpression(e, V2)
+                ce2 = None if wide else CompiledExpression(e, V2)
             except Exception as ex:
                 return Result.violation(f"compile-raises:{exc_label(ex)}", f"{show(recipe)} second V={order2}: {ex!r}", classes)
             pv = rounds[-1]
@@ -170,7 +172,9 @@ def check(case):
                     continue
                 x2 = np.array([pt[n] for n in order2], dtype=float)
                 try:
-                    got = {"compile": to_float(f2(x2)), "CompiledExpression.value": to_float(ce2.value(x2))}
+                    got = {"compile": to_float(f2(x2))}
+                    if ce2 is not None:
+                        got["CompiledExpression.value"] = to_float(ce2.value(x2))
                 except Exception as ex:
                     return Result.violation(f"call-raises:{exc_label(ex)}", f"{show(recipe)} second V={order2} at {pt}: {ex!r}", classes)
                 for k, fv in got.items():
